@@ -32,7 +32,9 @@ RULE = (
     "in-place edits by tracked numpy routes, by numpy routes that bypass the tracked array's methods, "
     "through views taken before a read, through arrays the mesh shares with a caller or another mesh; "
     "reassignment, copies (edit either side, observe the other), in-place edits of the objects that "
-    "library calls and reads hand out) x read-sets (none, each single "
+    "library calls and reads hand out; library functions that take the mesh - free functions of "
+    "comparison / repair / graph / proximity / intersections / exchange, query objects - called as the "
+    "FIRST access after an edit whose invalidation is still pending) x read-sets (none, each single "
     "value, all, random subsets). distinct = (mesh class, read-set, mutator sequence); non-trivial = "
     "the mutator ran on a non-empty cache or a post-mutation read was a cache hit."
 )
@@ -971,6 +973,116 @@ def mutators(rng):
 
 
 # ---------------------------------------------------------------------------
+# round 5: library functions that take a mesh, called as the FIRST access after an edit whose
+# invalidation is still pending (nothing was read since the arrays changed).  The usual way in -
+# a cached property - verifies the cache before anything runs; a function that is handed the mesh
+# (and takes the cache lock, looks into `mesh._cache.cache`, or keeps a structure keyed on the
+# mesh) has to do that itself.  What it answers is compared with its answer on a fresh mesh
+# where that is deterministic, and afterwards every value of the mesh is compared as usual (a
+# function that leaves the lock re-validates whatever sits in the cache for the NEW arrays).
+
+_FA_RESULT = {}
+_FA_FN = {}
+_FA_POINTS = np.array([[0.41, 0.43, 0.47], [-0.9, 0.2, 0.1], [0.3, 1.2, -0.7]])
+
+
+def _fa_points(m):
+    # plain numpy on the arrays: building the arguments must not be the first read
+    sc = scale_of(m)
+    return _FA_POINTS * sc["s"] * 0.5 + sc["c"], sc
+
+
+def first_access_mutators():
+    import trimesh
+    from trimesh import comparison, convex, curvature, graph, intersections, proximity, repair, smoothing
+    from trimesh import bounds as tbounds
+    from trimesh import sample as tsample
+
+    out = []
+
+    def add(name, fn, result=False):
+        full = "first_access:" + name
+
+        def f(m, r):
+            _FA_RESULT.pop(full, None)
+            try:
+                res = fn(m)
+            except Exception:
+                return  # a refusal is not what is judged: the state of the mesh afterwards is
+            if result:
+                _FA_RESULT[full] = _canon(res)
+
+        _FA_FN[full] = (fn, result)
+        out.append((full, f))
+
+    # takes the cache lock
+    add("comparison.identifier_simple", lambda m: comparison.identifier_simple(m), result=True)
+    # repair functions (they look into the cache for normals worth keeping)
+    add("repair.broken_faces", lambda m: repair.broken_faces(m), result=True)
+    add("repair.fix_winding", lambda m: repair.fix_winding(m))
+    add("repair.fix_inversion", lambda m: repair.fix_inversion(m))
+    add("repair.fix_inversion:multibody", lambda m: repair.fix_inversion(m, multibody=True))
+    add("repair.fix_normals:multibody", lambda m: repair.fix_normals(m, multibody=True))
+    add("repair.fill_holes", lambda m: repair.fill_holes(m))
+    add("repair.stitch", lambda m: repair.stitch(m))
+    # exporters (glb / obj decide on normals by looking into the cache dict)
+    for ft in ("glb", "obj", "ply", "stl", "off"):
+        add("export:" + ft, (lambda ft: lambda m: m.export(file_type=ft))(ft))
+    add("to_dict", lambda m: m.to_dict())
+    # the cache used as a plain store
+    add("eval_cached", lambda m: m.eval_cached("float(np.abs(self.vertices).sum()) + len(self.faces)"), result=True)
+    # free functions of other modules
+    add("graph.split", lambda m: len(graph.split(m, only_watertight=False)), result=True)
+    add("graph.connected_component_labels", lambda m: graph.connected_component_labels(m.face_adjacency, node_count=len(m.faces)))
+    add("convex.convex_hull", lambda m: float(convex.convex_hull(m).volume), result=True)
+    add("bounds.oriented_bounds", lambda m: tbounds.oriented_bounds(m))
+    add("sample.sample_surface", lambda m: tsample.sample_surface(m, 12))
+    add("smoothing.laplacian_calculation", lambda m: smoothing.laplacian_calculation(m, equal_weight=True))
+    add("intersections.mesh_plane",
+        lambda m: intersections.mesh_plane(m, plane_normal=[0.3, 0.2, 0.9], plane_origin=_fa_points(m)[1]["c"]))
+    add("curvature.gaussian_measure",
+        lambda m: curvature.discrete_gaussian_curvature_measure(m, _fa_points(m)[0], _fa_points(m)[1]["s"]))
+    add("proximity.closest_point", lambda m: proximity.closest_point(m, _fa_points(m)[0]))
+    add("proximity.ProximityQuery", lambda m: proximity.ProximityQuery(m).vertex(_fa_points(m)[0]))
+    # the query objects the mesh hands out (structures keyed on the mesh)
+    add("ray.intersects_any", lambda m: m.ray.intersects_any(_fa_points(m)[0] + _fa_points(m)[1]["s"] * 3.0, -np.ones((3, 3))))
+    add("nearest.on_surface", lambda m: m.nearest.on_surface(_fa_points(m)[0]))
+    add("contains", lambda m: m.contains(_fa_points(m)[0]))
+    add("copy:include_cache", lambda m: m.copy(include_cache=True))
+    add("hash", lambda m: m.__hash__(), result=True)
+    return out
+
+
+# edits that leave the invalidation pending (nothing verifies until the next access)
+PENDING_EDITS = ("inplace:v_imul", "inplace:f_setitem_last", "reassign:vertices", "update_faces:random_bool",
+                 "reassign:faces_subset", "inplace:v_setitem_late", "inplace:v_imatmul", "inplace:f_fliplr_all")
+# a read-set without the normals: update_faces verifies only when there are normals to salvage
+READS_NO_NORMALS = ["area", "volume", "bounds", "euler_number", "is_watertight", "center_mass", "triangles_center"]
+
+
+def judge_first_access_result(run, m, mname, hist, mesh_tag, got):
+    """The answer of a first-access function against its answer on a fresh mesh. True when stale."""
+    fn, has_result = _FA_FN.get(mname, (None, False))
+    if not has_result or got is _FA_RESULT:  # (the dict itself = "no answer recorded")
+        return False
+    try:
+        want = _canon(fn(fresh_of(m)))
+    except Exception:
+        run.skip("fresh value raises: %s" % mname)
+        return False
+    run.count("first_access_results_compared")
+    d = differ(got, want, mname, scale_of(m))
+    if not d:
+        return False
+    run.violation(
+        "mut=%s stale=result" % mname,
+        "`%s` called as the first access after the edit answers differently from the same call on a freshly built mesh: %s" % (mname, d),
+        {"mesh": mesh_tag, "history": hist, "value": "result", "diff": d},
+    )
+    return True
+
+
+# ---------------------------------------------------------------------------
 
 
 def scale_of(m):
@@ -1225,6 +1337,8 @@ def run_history(mon, run, mesh_tag, base, steps, seed_for_mut):
 
         if isinstance(res, trimesh.Trimesh):
             m = res
+        # (taken now: the reference history below runs the same function again)
+        fa_result = _FA_RESULT.pop(mname, _FA_RESULT)
         if len(m.faces) == 0 or len(m.vertices) == 0:
             run.count("emptied_by_mutator")
         # "which values were read before a mutation never changes what is read after it" also
@@ -1239,6 +1353,9 @@ def run_history(mon, run, mesh_tag, base, steps, seed_for_mut):
             # documented degenerate answers while carried values are the exact ones - neither is
             # stale.  One tiny step (extent ~4e-6) stays judged.  (thorough tier, seed 0)
             run.skip("mesh shrunk below the library's documented resolution: history ends")
+            break
+        if mname.startswith("first_access:") and judge_first_access_result(run, m, mname, hist, mesh_tag, fa_result):
+            run.count("histories_ended_at_first_violation")
             break
         if not observe:
             # a SILENT step: nothing is read between this mutator and the next one, so values
@@ -1305,6 +1422,28 @@ def _workload(run, mon):
             run.count("section1_cut_short")
             break
     k = 0
+    # (2d) values cached; an edit with NOTHING read after it; then a library function that is
+    # handed the mesh is the first to look at it.  Enumerated (not sampled): every function with a
+    # vertex edit, a face edit and one more edit in rotation (thorough: every edit)
+    fa = first_access_mutators()
+    mut_by_name.update(fa)
+    run.note("first_access_functions", [n for n, _ in fa])
+    for fi, (fname, ffn) in enumerate(fa):
+        edits = list(PENDING_EDITS)
+        if run.tier == "quick":
+            edits = edits[:2] + [edits[2 + fi % (len(edits) - 2)]]
+        for ei, ename in enumerate(edits):
+            idx += 1
+            if not run.mine(idx):
+                continue
+            mesh_tag, base = meshes[(fi + ei) % len(meshes)]
+            reads = READS_NO_NORMALS if ename.startswith("update_faces") or (fi + ei) % 3 == 2 else names_all
+            run.count("first_access_histories")
+            run_history(mon, run, mesh_tag, base,
+                        [(reads, ename, mut_by_name[ename], False), ([], fname, ffn, True)], idx)
+        if run.out_of_time(0.55):
+            run.count("first_access_cut_short")
+            break
     # (2c) an edit with NOTHING read after it, then a mutator that keeps part of the cache: what
     # was cached before the edit must not be re-validated by the second call
     silent_first = [n for n, _ in muts if n in (
@@ -1380,6 +1519,7 @@ def _workload(run, mon):
             break
     # (3) longer histories with random read subsets
     maxlen = 2 if run.tier == "quick" else 4
+    muts_all = muts + fa
     while not run.out_of_time(0.95):
         idx += 1
         mesh_tag, base = meshes[int(run.rng.integers(len(meshes)))]
@@ -1387,7 +1527,7 @@ def _workload(run, mon):
         for _ in range(int(run.rng.integers(2, maxlen + 1))):
             kk = int(run.rng.integers(0, 7))
             reads = list(run.rng.choice(names_all, size=kk, replace=False)) if kk else []
-            mname, mfn = muts[int(run.rng.integers(len(muts)))]
+            mname, mfn = muts_all[int(run.rng.integers(len(muts_all)))]
             steps.append((reads, mname, mfn, bool(run.rng.random() < 0.7)))
         steps[-1] = steps[-1][:3] + (True,)
         run_history(mon, run, mesh_tag, base, steps, idx)
@@ -1401,6 +1541,7 @@ def replay(run, case):
         sub = int(case.get("_subseed", run.subseed))
         meshes = dict(start_meshes(np.random.default_rng(sub + 2), "thorough"))
         muts = dict(mutators(np.random.default_rng(sub + 1)))
+        muts.update(first_access_mutators())
         names_all, _, _ = mon.read_names(list(meshes.values())[0])
         steps = []
         for h in case["history"]:
